@@ -37,6 +37,7 @@ type c26MJob struct {
 	ch     []int
 	closed bool
 	result string // "" = none
+	cbNew  bool   // its Done callback calls NewJob (not fired yet)
 }
 
 type c26Mirror struct {
@@ -51,8 +52,8 @@ type c26Mirror struct {
 	wst, wt          []int // 0 idle 2 running 3 acked
 	shouldShutdown   bool
 	ack, stopWorkers bool
-	stop, acks       int  // 0 notCalled 1 flagged 2 queueClosed 3 collecting 4 returned
-	pending          bool // a NewJob call is blocked on the full queue
+	stop, acks       int // 0 notCalled 1 flagged 2 queueClosed 3 collecting 4 returned
+	pending          int // NewJob calls blocked on the full queue
 }
 
 func c26NewMirror(w, mj int) *c26Mirror {
@@ -71,11 +72,11 @@ func (m *c26Mirror) idle() int {
 func (m *c26Mirror) settle() {
 	for {
 		switch {
-		case m.pending && !m.shouldShutdown && len(m.queue) < m.maxJobs:
-			// the blocked `w.queue <- j` of NewJob goes through
+		case m.pending > 0 && !m.shouldShutdown && len(m.queue) < m.maxJobs:
+			// a blocked `w.queue <- j` of NewJob goes through
 			m.jobs = append(m.jobs, &c26MJob{})
 			m.queue = append(m.queue, len(m.jobs)-1)
-			m.pending = false
+			m.pending--
 		case m.stop == 1:
 			m.stop, m.queueClosed = 2, true
 		case m.stop == 2 && m.ack:
@@ -109,6 +110,14 @@ func (m *c26Mirror) settle() {
 			} else {
 				m.jobs[m.pqJob].result = "err:" + strconv.Itoa(m.err)
 			}
+			if m.jobs[m.pqJob].cbNew {
+				// completed is closed: the callback goroutine calls NewJob (concurrently with the
+				// scheduler); after Stop's flag it is answered ErrShutdown
+				m.jobs[m.pqJob].cbNew = false
+				if !m.shouldShutdown {
+					m.pending++
+				}
+			}
 			m.err, m.pq = -1, 0
 		case m.pq == 0 && len(m.queue) == 0 && m.queueClosed:
 			m.pq = 3
@@ -117,6 +126,16 @@ func (m *c26Mirror) settle() {
 			return
 		}
 	}
+}
+
+// unfiredCb: some job's callback will call NewJob once the job completes
+func (m *c26Mirror) unfiredCb() bool {
+	for _, j := range m.jobs {
+		if j.cbNew {
+			return true
+		}
+	}
+	return false
 }
 
 func (m *c26Mirror) running() []int {
@@ -186,8 +205,14 @@ type c26Case struct {
 	results  []string
 	stopRet  atomic.Bool
 	stopCall bool
-	refused  int      // NewJob calls answered with ErrShutdown
-	pend     *c26Pend // result of the NewJob call that was blocked on the full queue
+	refused  int          // NewJob calls answered with ErrShutdown
+	pends    []*c26Pend   // results of NewJob calls made from goroutines (blocked on a full queue / from callbacks)
+	njStart  atomic.Int32 // NewJob calls started / returned in such goroutines
+	njRet    atomic.Int32
+	cbGate   chan struct{} // blocking callbacks wait here until Stop has returned
+	cbBlock  atomic.Int32  // blocking callbacks that have been entered
+	jobCb    []int         // per job: 0 plain/none, 1 blocking callback, 2 callback that calls NewJob
+	useCb    bool          // Done gets a callback (for a shutdown job its goroutine blocks forever: only some cases)
 	hung     bool
 }
 
@@ -220,17 +245,21 @@ var c26WGOK = func() bool {
 
 func (c *c26Case) observe() string {
 	c.mu.Lock()
-	if c.pend != nil {
-		// the NewJob call that was blocked on the full queue has returned
-		if c.pend.err != nil {
-			c.r.Violation("newjob-error", "NewJob (blocked on the full queue) returned %v before Stop", c.pend.err)
-		} else {
-			c.jobs = append(c.jobs, c.pend.jb.(*ParallelJob))
+	for _, pd := range c.pends {
+		// a NewJob call made from a goroutine has returned
+		switch {
+		case pd.err == nil:
+			c.jobs = append(c.jobs, pd.jb.(*ParallelJob))
 			c.waited = append(c.waited, false)
 			c.results = append(c.results, "")
+			c.jobCb = append(c.jobCb, 0)
+		case errors.Is(pd.err, ErrShutdown) && c.stopCall:
+			c.refused++
+		default:
+			c.r.Violation("newjob-error", "NewJob (from a goroutine) returned %v before Stop", pd.err)
 		}
-		c.pend = nil
 	}
+	c.pends = nil
 	var run []int
 	for t := range c.running {
 		run = append(run, t)
@@ -248,6 +277,60 @@ func (c *c26Case) observe() string {
 		st = 1
 	}
 	return fmt.Sprintf("run=%s avail=%s stop=%d jobs=%d", c26Set(run), c26Set(av), st, len(c.jobs))
+}
+
+// cb is the Done callback of job j. kind 0: logs only (nil in the cases that run without
+// callbacks); kind 1: blocks until the harness opens cbGate (after Stop returned) — a
+// callback that depends on the pool's progress; kind 2: calls NewJob (a follow-up job).
+// The real pool runs callbacks in their own goroutines: none of this may stop the scheduler.
+func (c *c26Case) cb(j, kind int) func() {
+	for len(c.jobCb) <= j {
+		c.jobCb = append(c.jobCb, 0)
+	}
+	c.jobCb[j] = kind
+	if kind == 0 && !c.useCb {
+		return nil
+	}
+	return func() {
+		if kind == 2 {
+			c.njStart.Add(1)
+		}
+		c.mu.Lock()
+		c.log = append(c.log, c26Ev{2, j})
+		c.mu.Unlock()
+		switch kind {
+		case 1:
+			c.cbBlock.Add(1)
+			<-c.cbGate
+		case 2:
+			jb, err := c.p.NewJob(32)
+			c.mu.Lock()
+			c.pends = append(c.pends, &c26Pend{jb, err})
+			c.mu.Unlock()
+			c.njRet.Add(1)
+		}
+	}
+}
+
+// hangKey: a pool that stops making progress while a blocking callback is pending is stuck
+// in (or behind) that callback
+func (c *c26Case) hangKey() string {
+	// a job whose result is already available while one of its started tasks has not ended
+	c.mu.Lock()
+	early := false
+	for t := range c.running {
+		if j := c.m.taskJob[t]; j < len(c.jobs) && len(c.jobs[j].result) == 1 {
+			early = true
+		}
+	}
+	c.mu.Unlock()
+	if early {
+		return "result-before-tasks-ended"
+	}
+	if c.cbBlock.Load() > 0 {
+		return "callback-blocks-scheduler"
+	}
+	return "hang"
 }
 
 func (c *c26Case) quiesce() string {
@@ -269,7 +352,7 @@ func (c *c26Case) quiesce() string {
 			time.Sleep(50 * time.Microsecond)
 		}
 		if time.Now().After(deadline) {
-			c.r.Violation("hang", "pool stuck at [%s]; the repaired-pool mirror expects [%s] (a job never completes / Stop never returns)", got, want)
+			c.r.Violation(c.hangKey(), "pool stuck at [%s]; the repaired-pool mirror expects [%s] (a job never completes / Stop never returns; blocking callbacks entered: %d)", got, want, c.cbBlock.Load())
 			c.hung = true
 			return got
 		}
@@ -298,11 +381,9 @@ func (c *c26Case) body(t int, fail bool) func() error {
 // c26WaitSchedulerParked returns once every processQueue goroutine is blocked on a channel
 // or on sg.Wait (or none exists).
 func c26WaitSchedulerParked() {
-	buf := make([]byte, 1<<20)
 	for dl := time.Now().Add(c26Timeout); time.Now().Before(dl); {
-		n := runtime.Stack(buf, true)
 		parked := true
-		for _, blk := range strings.Split(string(buf[:n]), "\n\n") {
+		for _, blk := range strings.Split(c26AllStacks(), "\n\n") {
 			if !strings.Contains(blk, "processQueue.func1") {
 				continue
 			}
@@ -328,11 +409,22 @@ func c26WaitSchedulerParked() {
 // one ack from every worker, and a worker's ack is the last thing it does before returning.
 var c26StackBuf = make([]byte, 2<<20)
 
+// c26AllStacks returns the COMPLETE dump of all goroutines: the buffer grows until the dump
+// fits (goroutines blocked forever accumulate in a long run — e.g. the Done-callback goroutines
+// of jobs answered with ErrShutdown — and a truncated dump would silently hide the scheduler).
+func c26AllStacks() string {
+	for {
+		n := runtime.Stack(c26StackBuf, true)
+		if n < len(c26StackBuf) {
+			return string(c26StackBuf[:n])
+		}
+		c26StackBuf = make([]byte, 2*len(c26StackBuf))
+	}
+}
+
 func c26BlockedWorkers() int {
-	buf := c26StackBuf
-	n := runtime.Stack(buf, true)
 	cnt := 0
-	for _, blk := range strings.Split(string(buf[:n]), "\n\n") {
+	for _, blk := range strings.Split(c26AllStacks(), "\n\n") {
 		if !strings.Contains(blk, "startWorker.func1") {
 			continue
 		}
@@ -448,12 +540,18 @@ func (c *c26Case) finish() {
 	if c == nil || c.hung {
 		return
 	}
-	for round := 0; round < 2; round++ {
+	// Done every job, release every task, and let follow-up jobs created by callbacks appear
+	// (they get Done too) until nothing is in flight: no NewJob may be running when Stop is called
+	settleDl := time.Now().Add(c26Timeout)
+	for {
+		c.observe() // absorbs jobs created from goroutines
+		for len(c.m.jobs) < len(c.jobs) {
+			c.m.jobs = append(c.m.jobs, &c26MJob{})
+		}
 		for j, jb := range c.jobs {
 			if !c.m.jobs[j].closed {
 				c.m.jobs[j].closed = true
-				jj := j
-				jb.Done(func() { c.mu.Lock(); c.log = append(c.log, c26Ev{2, jj}); c.mu.Unlock() })
+				jb.Done(c.cb(j, 0))
 			}
 		}
 		c.mu.Lock()
@@ -464,27 +562,41 @@ func (c *c26Case) finish() {
 				close(g)
 			}
 		}
-		c.mu.Unlock()
-		if !c.m.pending {
-			break
+		seen := map[int]bool{}
+		for _, ev := range c.log {
+			if ev.kind == 2 {
+				seen[ev.id] = true
+			}
 		}
-		// a NewJob is still blocked on the full queue: with every job Done and every task released
-		// the scheduler drains the queue and the call must return (before Stop may be called)
-		deadline := time.Now().Add(c26Timeout)
-		for {
-			c.observe()
-			if len(c.jobs) == len(c.m.jobs)+1 {
+		npend := len(c.pends)
+		c.mu.Unlock()
+		quiet := npend == 0 && c.njStart.Load() == c.njRet.Load()
+		for j, jb := range c.jobs {
+			if !c.waited[j] && len(jb.result) == 0 {
+				quiet = false
+			}
+			if c.jobCb[j] == 2 && !seen[j] {
+				select {
+				case <-jb.completed: // completed: its callback (which calls NewJob) must still come
+					quiet = false
+				default:
+				}
+			}
+		}
+		if quiet && c.njStart.Load() == c.njRet.Load() {
+			c.mu.Lock()
+			npend = len(c.pends)
+			c.mu.Unlock()
+			if npend == 0 {
 				break
 			}
-			if time.Now().After(deadline) {
-				c.r.Violation("hang", "NewJob blocked on the full queue did not return within %v although every job was Done and every task released", c26Timeout)
-				c.hung = true
-				return
-			}
-			time.Sleep(50 * time.Microsecond)
 		}
-		c.m.jobs = append(c.m.jobs, &c26MJob{})
-		c.m.pending = false
+		if time.Now().After(settleDl) {
+			c.r.Violation(c.hangKey(), "with every job Done and every task released the pool did not finish its jobs within %v (blocking callbacks entered: %d)", c26Timeout, c.cbBlock.Load())
+			c.hung = true
+			return
+		}
+		time.Sleep(50 * time.Microsecond)
 	}
 	if !c.stopCall {
 		c.stopCall = true
@@ -493,12 +605,13 @@ func (c *c26Case) finish() {
 	deadline := time.Now().Add(c26Timeout)
 	for !c.stopRet.Load() {
 		if time.Now().After(deadline) {
-			c.r.Violation("hang", "Stop did not return within %v after all jobs were Done and all tasks released", c26Timeout)
+			c.r.Violation(c.hangKey(), "Stop did not return within %v after all jobs were Done and all tasks released (blocking callbacks entered: %d)", c26Timeout, c.cbBlock.Load())
 			c.hung = true
 			return
 		}
 		time.Sleep(50 * time.Microsecond)
 	}
+	close(c.cbGate) // only now may the blocking callbacks return
 	for j, jb := range c.jobs {
 		if c.waited[j] {
 			continue
@@ -514,7 +627,7 @@ func (c *c26Case) finish() {
 	c26CheckStopped(c.r, "gated case")
 	withCb := map[int]bool{}
 	for j := range c.jobs {
-		withCb[j] = true // every job got Done(cb) (by a `done` op or just above)
+		withCb[j] = c.useCb || c.jobCb[j] != 0 // every job got Done (by a `done` op or just above)
 	}
 	c26CallbackOracle(c.r, &c.mu, &c.log, c.results, withCb)
 	c.mu.Lock()
@@ -625,6 +738,16 @@ func c26Generate(r *verifh.Run) []string {
 		// NewJob on a full job queue blocks until the scheduler takes a job; the pool keeps working
 		"pool 2 1", "job", "go 0 0", "job", "job", "go 1 0", "job", "done 0", "rel 0", "wait 0", "go 2 0", "done 1", "done 2", "rel 0", "rel 0", "wait 1", "wait 2",
 		"pool 1 1", "job", "go 0 1", "go 0 0", "job", "job", "done 0", "done 1", "rel 0", "wait 0", "wait 1", "done 2", "wait 2", "stop",
+		// completion callbacks that depend on the pool's progress: a callback that blocks until Stop
+		// has returned, and a callback that submits a follow-up job (also onto a full queue); later
+		// jobs must still complete and Stop must return
+		"pool 2 2", "job", "go 0 0", "done 0 b", "job", "go 1 0", "done 1", "rel 0", "rel 0", "wait 0", "wait 1", "job", "go 2 1", "done 2", "rel 0", "wait 2", "stop",
+		"pool 1 1", "job", "go 0 0", "done 0 n", "job", "rel 0", "wait 0", "go 1 0", "done 1 b", "rel 0", "wait 1", "go 2 0", "done 2", "rel 0", "wait 2",
+		"pool 2 1", "job", "go 0 0", "done 0 n", "job", "go 1 0", "job", "rel 0", "done 1 n", "rel 0", "wait 0", "wait 1", "done 2", "done 3", "wait 2", "wait 3", "stop",
+		// Stop while the scheduler is on a job that was never Done: Stop does not return, the
+		// queued jobs are not answered (until the harness Dones the job at the end of the case)
+		"pool 3 4", "done 0", "done 0", "rel 23", "go 0 0", "go 0 0", "wait 0", "wait 0", "job", "job", "go 1 1", "job", "stop",
+		"pool 13 3", "wait 0", "job", "done 0", "rel 19", "job", "job", "rel 14", "go 0 0", "go 2 0", "rel 24", "rel 19", "done 2", "rel 10", "done 2", "stop",
 	}
 	ncases := r.N(1200, 30000)
 	for c := 0; c < ncases; c++ {
@@ -660,7 +783,14 @@ func c26Generate(r *verifh.Run) []string {
 				}
 				lines = append(lines, fmt.Sprintf("go %d %d", pick, f))
 			case x < 58:
-				lines = append(lines, fmt.Sprintf("done %d", pick))
+				switch y := g.Intn(100); {
+				case y < 15:
+					lines = append(lines, fmt.Sprintf("done %d b", pick))
+				case y < 27:
+					lines = append(lines, fmt.Sprintf("done %d n", pick))
+				default:
+					lines = append(lines, fmt.Sprintf("done %d", pick))
+				}
 			case x < 85:
 				lines = append(lines, fmt.Sprintf("rel %d", g.Intn(32)))
 			case x < 97:
@@ -726,6 +856,7 @@ func TestVerifC26(t *testing.T) {
 		lines = c26Generate(r)
 	}
 	var c *c26Case
+	npools := 0
 	broken := false
 	for _, l := range lines {
 		if broken {
@@ -754,7 +885,9 @@ func TestVerifC26(t *testing.T) {
 				broken = true
 				continue
 			}
-			c = &c26Case{r: r, running: map[int]bool{}, m: c26NewMirror(w, mj)}
+			c = &c26Case{r: r, running: map[int]bool{}, m: c26NewMirror(w, mj), cbGate: make(chan struct{})}
+			npools++
+			c.useCb = npools <= 12 || npools%6 == 0
 			c.p = NewParallel(w, mj).(*ParallelWorkers)
 			r.Emit(l, "ok")
 			r.Count("workers:" + strconv.Itoa(w))
@@ -809,20 +942,28 @@ func TestVerifC26(t *testing.T) {
 				r.Emit(l, "shutdown "+c.quiesce())
 				continue
 			}
-			if c.m.pending {
+			if c.m.pending > 0 {
+				r.Emit(l, "busy")
+				continue
+			}
+			if len(c.m.queue) >= c.m.maxJobs && c.m.unfiredCb() {
+				// two NewJob calls blocked at the same time would enter the queue in an order
+				// the harness cannot observe: at most one goroutine NewJob is in flight
 				r.Emit(l, "busy")
 				continue
 			}
 			if len(c.m.queue) >= c.m.maxJobs {
 				// the queue is full: NewJob blocks on `w.queue <- j` (without holding anything) until
 				// the scheduler takes a job; everything else must keep working meanwhile
-				c.m.pending = true
+				c.m.pending++
 				cc := c
+				cc.njStart.Add(1)
 				go func() {
 					jb, err := cc.p.NewJob(32)
 					cc.mu.Lock()
-					cc.pend = &c26Pend{jb, err}
+					cc.pends = append(cc.pends, &c26Pend{jb, err})
 					cc.mu.Unlock()
+					cc.njRet.Add(1)
 				}()
 				r.Emit(l, "pending "+c.quiesce())
 				r.Count("newjob-on-full-queue")
@@ -869,8 +1010,14 @@ func TestVerifC26(t *testing.T) {
 					r.Count("failing-task")
 				}
 			}
-		case f[0] == "done" && len(f) == 2:
+		case f[0] == "done" && (len(f) == 2 || (len(f) == 3 && (f[2] == "b" || f[2] == "n"))):
 			j := atoi(f[1])
+			kind := 0
+			if len(f) == 3 && f[2] == "b" {
+				kind = 1 // callback blocks until Stop has returned
+			} else if len(f) == 3 {
+				kind = 2 // callback submits a follow-up job
+			}
 			switch {
 			case j < 0:
 				r.Emit(l, "bad-op")
@@ -878,11 +1025,17 @@ func TestVerifC26(t *testing.T) {
 				r.Emit(l, "nojob")
 			case c.m.jobs[j].closed:
 				r.Emit(l, "closed")
+			case kind == 2 && (c.m.pending > 0 || c.m.unfiredCb()):
+				r.Emit(l, "busy") // see `job`: at most one goroutine NewJob in flight
 			default:
 				c.m.jobs[j].closed = true
-				c.jobs[j].Done(func() { c.mu.Lock(); c.log = append(c.log, c26Ev{2, j}); c.mu.Unlock() })
+				c.m.jobs[j].cbNew = kind == 2
+				c.jobs[j].Done(c.cb(j, kind))
 				c.m.settle()
 				r.Emit(l, c.quiesce())
+				if kind > 0 {
+					r.Count(fmt.Sprintf("callback-kind:%d", kind))
+				}
 			}
 		case f[0] == "rel" && len(f) == 2:
 			rr := atoi(f[1])
@@ -907,7 +1060,7 @@ func TestVerifC26(t *testing.T) {
 				r.Emit(l, "again")
 				continue
 			}
-			if c.m.pending {
+			if c.m.pending > 0 {
 				// Stop while a NewJob is blocked in its send is outside the modelled protocol
 				// (close of the queue under a blocked sender panics in the real code)
 				r.Emit(l, "busy")
@@ -1146,6 +1299,7 @@ func c26Free(r *verifh.Run, f []string) bool {
 		return false
 	}
 	g := verifh.NewRNG(seed)
+	useCb := seed%6 == 0 // callbacks of shutdown jobs block forever: only in some cases
 	p := NewParallel(w, nj+1)
 	var mu sync.Mutex
 	var log []c26Ev
@@ -1196,7 +1350,11 @@ func c26Free(r *verifh.Run, f []string) bool {
 				return nil
 			})
 		}
-		jb.Done(func() { mu.Lock(); log = append(log, c26Ev{2, jid}); mu.Unlock() })
+		if useCb {
+			jb.Done(func() { mu.Lock(); log = append(log, c26Ev{2, jid}); mu.Unlock() })
+		} else {
+			jb.Done(nil)
+		}
 	}
 	if !refusedOK {
 		r.Violation("newjob-error", "NewJob failed before Stop")
@@ -1228,7 +1386,7 @@ func c26Free(r *verifh.Run, f []string) bool {
 	}
 	withCb := map[int]bool{}
 	for j := range jobs {
-		withCb[j] = true
+		withCb[j] = useCb
 	}
 	c26CallbackOracle(r, &mu, &log, results, withCb)
 	mu.Lock()
